@@ -285,7 +285,7 @@ func bucket(n int) string {
 
 func main() {
 	fl := lib.ParseFlags()
-	res := lib.NewResult("non-trivial = the execution has at least one subscriber and at least one value was received from the real batcher; distinct = by (family, op list) for the departure/forced families, by hash of the observed event sequence for random histories")
+	res := lib.NewResult("non-trivial = the execution has at least one subscriber and at least one value was received from the real batcher; distinct = by (family, op list) for the enumerated families, by hash of the observed event sequence for random histories; families that are COMPLETE enumerations of their stated small scope (every hook point x subscriber position x operation list): departure, forced-send, forced-exit, forced-both, forced-loop, close-multi, precancelled (+ backpressure, slow: single cases); SAMPLED: random, random-deep — hence exhaustive=false for the run as a whole; a trace whose model state set exceeded the acceptor's fuel is counted as NOT validated (inconclusive)")
 	defer func() { res.Write(fl.Out) }()
 	repo := os.Getenv("VERIF_REPO")
 	if repo == "" {
@@ -350,7 +350,7 @@ func main() {
 	for _, c := range loopCases(thorough || fl.Search) {
 		r.eval(c)
 	}
-	res.Exhaustive = true // over (hook point, subscriber position) x operation list of forcedCases / closeCases
+	res.Exhaustive = false // the run mixes complete enumerations (named in the rule) with sampled random histories
 	// 3. random histories
 	n := 250
 	if thorough {
